@@ -465,7 +465,11 @@ func contentTerm(path, content string, tb *tables18, g geo18) string {
 		base := filepath.Base(path)
 		if base == "kustomization.yaml" || base == "kustomization.yml" || base == "Kustomization" {
 			if k, ok := parseKust18([]byte(content)); ok {
-				return "(CKust " + kustTerm(k) + ")"
+				src := ""
+				if rel, err := filepath.Rel(g.absNewDir, path); err == nil {
+					src = filepath.Join(g.absScope, rel)
+				}
+				return fmt.Sprintf("(CKust %d %s)", tb.srcID(src), kustTerm(k))
 			}
 		}
 		rel, err := filepath.Rel(g.absNewDir, path)
